@@ -410,6 +410,7 @@ class Hist:
         self.expect = [None]     # per line: None or dict of real observations
         self.counts = {}
         self.pending_setter = None
+        self.cell_prev = {}      # instance index -> the transfer-function object its FourierFilter held after its last use
 
     def count(self, k):
         self.counts[k] = self.counts.get(k, 0) + 1
@@ -483,7 +484,7 @@ class Hist:
             ro = self.G(fresh.get_output_grid(ii, wl))
         return 'C05 req %s %s %s %s %s' % (self.G(gi), self.G(go), a, ri, ro)
 
-    def observe(self, line, status, nhanded0):
+    def observe(self, line, status, nhanded0, dt=None):
         obs = {'status': status}
         if line is None:
             return
@@ -501,6 +502,23 @@ class Hist:
                 self.state_issue('cannot interpret the instance handed out: %r' % (e,))
         if status == 'ok':
             obs.update(self.real_state())
+        if status == 'ok' and dt is not None and len(self.handed) > nhanded0 and 'key' in obs:
+            # instances that own a memo cell (the FourierFilter of a Fresnel / angular-spectrum instance): the propagation is
+            # sent as `reqc` (Cache.stepC with Cache.memoContent); the dtype the cell of the instance handed out holds now
+            # and whether this propagation rebuilt it are compared with the model's heap
+            ff = getattr(self.handed[nhanded0], 'fourier_filter', None)
+            if ff is not None:
+                try:
+                    tf = ff._transfer_function
+                    idx = self.inst_id(self.handed[nhanded0])
+                    obs['slot'] = '-' if tf is None else str(dt_code(tf.dtype))
+                    obs['rebuilt'] = '0' if (idx in self.cell_prev and self.cell_prev[idx] is tf) else '1'
+                    self.cell_prev[idx] = tf
+                    obs['res'] = '%s/%s/%d' % (obs['key'], obs['ver'], dt_code(dt))
+                    line = 'C05 reqc' + line[len('C05 req'):] + ' %d' % dt_code(dt)
+                    self.count('reqc:rebuilt=' + obs['rebuilt'])
+                except Exception as e:
+                    self.state_issue('cannot read the memo cell of the instance handed out: %r' % (e,))
         self.lines.append(line)
         self.expect.append(obs)
 
@@ -615,7 +633,7 @@ class Hist:
                 if d:
                     self.fail('result-differs', '%s on grid #%d at wavelength %r: %s' % (kind, g, wl, d), step)
                 self.pending_setter = None
-                self.observe(line, 'ok', n0)
+                self.observe(line, 'ok', n0, dt=dt)
                 if d:
                     return
             elif kind == 'both':
@@ -1613,7 +1631,7 @@ def compare_with_model(ctx, batch):
             ctx.traces_validated += 1
             m = parse_model(resp)
             diffs = []
-            for f in ('status', 'id', 'key', 'ver', 'num', 'cache'):
+            for f in ('status', 'id', 'key', 'ver', 'num', 'cache', 'slot', 'rebuilt', 'res'):
                 if f in exp and exp[f] != m.get(f):
                     diffs.append('%s: code %s model %s' % (f, exp[f], m.get(f)))
             if 'how' in m:
